@@ -395,3 +395,9 @@ PROPS["C17"]["jobs"]["thorough"] += [J("c17", c, deadline=900, opts={"apireset":
 PROPS["C17"]["text"] += " Three layouts run once more with a restart in which the application, between CONodeInit and CONodeStart, writes tentative values into every group and calls CONmtReset(CO_RESET_NODE): the groups have to come back from NVM as after an NMT reset of a started node."
 PROPS["C14"]["text"] += " At every activation the application's object trigger (COTPdoTrigObj) is probed as well: an object sends the TPDO exactly if the stored mapping contains it - links of an earlier mapping must be gone."
 PROPS["C06"]["text"] += " The typed-access sweep runs twice: the second time every entry also carries the flags asynchronous and PDO-mappable, the node is started and an unrelated node error is pending that the application never fetches."
+# the application stops the node from inside the mode-change callback that announces OPERATIONAL: whatever mode the node reports afterwards, every service gate has to agree with it
+for _p in ("C09", "C04"):
+    PROPS[_p]["jobs"]["quick"] += [J("c09", 0, depth=80, deadline=120, opts={"cbmode": 1})]
+    PROPS[_p]["jobs"]["thorough"] += [J("c09", c, depth=80, deadline=600, opts={"cbmode": 1}) for c in (0, 4)]
+    PROPS[_p]["text"] += " An NMT exploration (c09 cbmode=1) in which the application calls CONmtSetMode(CO_STOP) from inside the mode-change callback that announces OPERATIONAL is part of the check: whichever request wins, the mode the node reports and the gate in front of every service (SDO answered in PRE-OPERATIONAL and OPERATIONAL only) have to agree."
+PROPS["C02"]["text"] += " In the two-server interleavings the second participant can also be the application switching server 1 off (1201h:1) at every position of the transfer on server 0."
